@@ -7,7 +7,7 @@ use crate::case::{Api, Be, Fam};
 use crate::exec::{push_record, typed_backends};
 use crate::gen;
 use crate::mem::{standard_places, Place};
-use crate::p_sub::{exhaustive_pairs, inflated_pairs, level, prefilter_history, structured_pairs};
+use crate::p_sub::{exhaustive_pairs, inflated_pairs, level, long_pairs, prefilter_history, structured_pairs};
 use crate::runner::{Runner, Tier};
 
 fn iter_apis(r: &Runner) -> Vec<Api> {
@@ -523,6 +523,7 @@ pub fn sub_iters(r: &mut Runner) {
         inflated_pairs(r, (3, 4), if lvl == 1 { 8 } else { 10 }, &mut run_pair);
     }
     structured_pairs(r, if lvl >= 2 { 700 } else { 130 }, &mut run_pair);
+    long_pairs(r, &mut run_pair);
     // prefilter history: matches after the prefilter went inert / while it is
     // still effective after many candidates
     prefilter_history(r, &mut |r, hay, ndl, k| {
